@@ -1507,10 +1507,11 @@ class Evaluator:
         if name == "isinstance" and len(a) == 2 and a[0][0] == "caught":
             names = self.exc_type_names(a[1])
             if names is not None:
-                known = a[0][2] if a[0][2] != ("BaseException",) else ()
-                return c_or([self.exc_is(("exctype", a[0][1], known, ()), n) for n in names])
+                return c_or([self.exc_is(self.class_of_caught(a[0]), n) for n in names])
+        if name == "isinstance" and len(a) == 2 and a[0] == NONE and self.exc_type_names(a[1]) is not None:
+            return FALSE
         if name == "type" and len(a) == 1 and a[0][0] == "caught":
-            return ("exctype", a[0][1], a[0][2] if a[0][2] != ("BaseException",) else (), ())
+            return self.class_of_caught(a[0])
         if name == "isinstance" and len(a) == 2:
             if a[0][0] == "obj" and a[1][0] == "class":
                 return ("const", self.repo.is_subclass(self.heap_objs[a[0][1]].cls, a[1][1]))
@@ -1846,9 +1847,12 @@ class Evaluator:
                 self.bind(item.optional_vars, NONE, fr)
             n = len(self.ctx)
             self.trys.append((tid, mgr[1]))
+            nex = len(fr.exits)
             run_body()
             self.trys.pop()
             del self.ctx[n:]
+            for _kind, cond, _d in list(fr.exits[nex:]):
+                self.ctx.append(("if", c_not(cond)))
             return False
         if mgr[0] == "ctxgen":
             return self.with_generator(s, item, mgr, fr, run_body)
@@ -1856,10 +1860,11 @@ class Evaluator:
         if mgr[0] == "obj":
             cls = self.heap_objs[mgr[1]].cls
             enter, exit_ = self.repo.lookup_method(cls, "__enter__"), self.repo.lookup_method(cls, "__exit__")
-        if enter is None or exit_ is None:
+        inherited_enter = enter is None and exit_ is not None and any(b.split(".")[-1] in ("AbstractContextManager", "ContextDecorator") for b in self.repo.external_bases(cls))
+        if (enter is None and not inherited_enter) or exit_ is None:
             self.problem("with statement over a context manager that is not defined in the analysed code", s)
             return run_body()
-        v = self.call_function(enter, [mgr], {}, s)
+        v = mgr if enter is None else self.call_function(enter, [mgr], {}, s)  # AbstractContextManager.__enter__ returns self
         if item.optional_vars is not None:
             self.bind(item.optional_vars, v, fr)
         types = self.probe_exit(exit_, mgr, tid, s)
@@ -1870,9 +1875,11 @@ class Evaluator:
         n = len(self.ctx)
         if types:
             self.trys.append((tid, types))
+        nex_body = len(fr.exits)
         done = run_body()
         if types:
             self.trys.pop()
+        body_exits = list(fr.exits[nex_body:])
         del self.ctx[n:]
         # left without an exception
         if types:
@@ -1889,9 +1896,11 @@ class Evaluator:
             other = ("not " + "|".join(types),) if types else ("BaseException",)
             self.ctx.append(("if", ("raised", tid, other)))
             nex = len(fr.exits)
-            self.call_function(exit_, [mgr, ("exctype", tid, (), types), ("caught", tid, ("BaseException",)), tb], {}, s)
+            self.call_function(exit_, [mgr, ("exctype", tid, (), types), ("caught", tid, other), tb], {}, s)
             del fr.exits[nex:]
             del self.ctx[n:]
+        for _kind, cond, _d in body_exits:
+            self.ctx.append(("if", c_not(cond)))
         return done and not types
 
     def with_generator(self, s, item, mgr, fr, run_body) -> bool:
@@ -1946,6 +1955,14 @@ class Evaluator:
                 out.extend(names)
             return tuple(out)
         return None
+
+    @staticmethod
+    def class_of_caught(c):
+        """("exctype", ...) of a ("caught", try id, classes) value; classes = ("not A|B",) says what it is not."""
+        types = c[2]
+        if len(types) == 1 and types[0].startswith("not "):
+            return ("exctype", c[1], (), tuple(types[0][4:].split("|")))
+        return ("exctype", c[1], types if types != ("BaseException",) else (), ())
 
     @staticmethod
     def exc_is(exctype, name: str):
@@ -2067,8 +2084,10 @@ class Evaluator:
         types = tuple(types)
         n = len(self.ctx)
         self.trys.append((tid, types))
+        nex_body = len(fr.exits)
         t_body = self.block(s.body, fr)
         self.trys.pop()
+        body_exits = list(fr.exits[nex_body:])
         body_env = dict(fr.env.vars)
         del self.ctx[n:]
         if s.orelse:
@@ -2087,6 +2106,9 @@ class Evaluator:
                 self.ctx.append(("if", c_not(cond)))
         if s.finalbody:
             self.block(s.finalbody, fr)
+        # what follows the statement only happens when the body was not left by continue / break / return
+        for _kind, cond, _d in body_exits:
+            self.ctx.append(("if", c_not(cond)))
         if t_body and not s.handlers:
             return True
         return False
